@@ -45,7 +45,10 @@ def run(ctx):
         effective = enabled or [(0, 1)]          # a server without EnableSecurity serves None/None
         if not o.get("raw") and sorted(adv) != sorted(enabled * max(1, o.get("urls", 1))):
             report("advertised-differs-from-enabled", "configuration %s advertises %s but enables %s" % (o["config"], adv, enabled), o)
-        if o.get("opened") and pair not in effective and pair != (0, 1):
+        if o.get("renew") and o.get("opened") and pair not in effective and pair != (0, 1):
+            report("renew-not-checked-against-config", "server configured with %s (%s): a channel opened as %s was renewed as %s%s" % (
+                o["config"], enabled, tuple(o["from"]), pair, " and kept being served" if o.get("served") else ""), o)
+        elif o.get("opened") and pair not in effective and pair != (0, 1):
             report("opn-not-checked-against-config", "server configured with %s (%s) opened a %s channel" % (o["config"], enabled, o["client_name"]), o)
         if o.get("session") and pair not in effective:
             report("session-on-channel-not-enabled", "server configured with %s (%s) created a session on a %s channel" % (o["config"], enabled, o["client_name"]), o)
@@ -53,7 +56,7 @@ def run(ctx):
             report("session-refused-on-enabled-channel", "CreateSession refused (0x%08x) on an enabled %s channel of %s" % (o.get("session_status", 0), o["client_name"], o["config"]), o)
         if o.get("opened") and o.get("served") is False:
             report("discovery-refused", "GetEndpoints refused on an opened %s channel of %s" % (o["client_name"], o["config"]), o)
-        if not o.get("opened") and pair in effective and (o["has_key"] or pair[0] == 0) and pair[0] != 99:
+        if not o.get("opened") and pair in effective and (o["has_key"] or pair[0] == 0) and pair[0] != 99 and (pair[0] == 0) == (pair[1] == 1):
             report("enabled-pair-refused/" + o["client_name"], "an enabled pair was refused: %s on %s: %s" % (o["client_name"], o["config"], o.get("err")), o)
         if not o.get("opened") and o.get("status") and o["status"] not in (0x80540000, 0x80550000) and o.get("raw"):
             report("refusal-status", "refused with status 0x%08x" % o["status"], o)
@@ -63,13 +66,13 @@ def run(ctx):
         en = "[%s]" % "; ".join("(%d, %d)" % tuple(x) for x in (o.get("enabled") or []))
         adv = "[%s]" % "; ".join("(0, (%d, %d))" % tuple(x) for x in (o.get("advertised") or []))
         sess = "None" if o.get("session") is None else "(Some %s)" % sc.b(o["session"])
-        lines.append("(%s, %s, (%d, %d), (%s, %d, %s), %s, %d%%nat)" % (en, sc.b(o["has_key"]), o["client"][0], o["client"][1],
+        lines.append("(%s, %s, %s, (%d, %d), (%s, %d, %s), %s, %d%%nat)" % (en, sc.b(o["has_key"]), "OpnRenew" if o.get("renew") else "OpnIssue", o["client"][0], o["client"][1],
                                                                      sc.b(bool(o.get("opened"))), (o.get("status") if o.get("status") in (0x80540000, 0x80550000) else 0), sess, adv, o.get("urls", 1)))
     okc, idx, clog = ctx.eval_cases(
         "From Coq Require Import NArith Bool List.\nFrom Opcua Require Import Model.ServerSpace Model.ServerBrowse Model.Server Model.ServerSec.\nImport ListNotations. Open Scope N_scope.",
-        "list secpair * bool * (N * N) * (bool * N * option bool) * list (N * secpair) * nat", lines,
-        """  let '(en, key, (p, m), (opened, status, sess), adv, nurls) := c in
-  Bool.eqb (opn_accept en key p m) opened &&
+        "list secpair * bool * opn_kind * (N * N) * (bool * N * option bool) * list (N * secpair) * nat", lines,
+        """  let '(en, key, kind, (p, m), (opened, status, sess), adv, nurls) := c in
+  Bool.eqb (opn_accept_k en key kind p m) opened &&
   (if status =? 0 then true else match accept_security en p m with Some st => st =? status | None => false end) &&
   (match sess with
    | None => true
@@ -93,9 +96,11 @@ def run(ctx):
         "rule": "server configurations (None only with and without key, one secured pair only, mixed, nothing enabled) x client policy/mode "
                 "(None, Basic256Sha256 Sign and SignAndEncrypt, Basic128Rsa15, Aes128_Sha256_RsaOaep, Aes256_Sha256_RsaPss) over real channels, "
                 "each followed by GetEndpoints and CreateSession, plus raw OPN frames with pairs the client library refuses to send "
-                "(None with Sign / SignAndEncrypt / Invalid / 4, an unknown policy URI); distinct = distinct (configuration, client pair, opened)",
+                "(None with Sign / SignAndEncrypt / Invalid / 4, an unknown policy URI), plus renewals: every opened channel asks for a new token "
+                "with each mode its policy can carry, and unsecured channels send raw Renew frames naming modes 0..4; distinct = distinct (configuration, client pair, opened)",
         "sessions_created": sum(1 for o in obs if o.get("session")), "discovery_only_channels": sum(1 for o in obs if o.get("opened") and o.get("session") is False),
-        "raw_frames": sum(1 for o in obs if o.get("raw")),
+        "raw_frames": sum(1 for o in obs if o.get("raw")), "renewals": sum(1 for o in obs if o.get("renew")),
+        "renewals_refused": sum(1 for o in obs if o.get("renew") and not o.get("opened")),
         "opened": sum(1 for o in obs if o.get("opened")), "refused_with_status": sum(1 for o in obs if not o.get("opened") and o.get("status")),
         "samples": obs[12:15],
         "traces_validated_against_impl": len(obs), "model_impl_mismatches": len(idx) if okc else -1,
